@@ -71,12 +71,12 @@ func (bm *BucketMeta) Size() int64 {
 // ReadBucketMeta returns bucketMeta at given file path name.
 func ReadBucketMeta(name string) (bucketMeta *BucketMeta, err error) {
 	var off int64
-	verifFS("open", name, 0, nil)
-	fd, err := os.OpenFile(name, os.O_CREATE|os.O_RDWR, 0644)
-	defer fd.Close()
+	// reading must not create the file: an empty meta file makes the next Open fail
+	fd, err := os.OpenFile(name, os.O_RDONLY, 0644)
 	if err != nil {
 		return
 	}
+	defer fd.Close()
 
 	buf := make([]byte, BucketMetaHeaderSize)
 	_, err = fd.ReadAt(buf, off)
